@@ -666,8 +666,9 @@ Definition step (c : client) (o : op) : client * obs :=
   | OBatchWrite reqs => batch_write c reqs
   | OBatchGet reqs opts => batch_get c reqs opts
   | OTransact =>
+      (* a stub that writes nothing; under an emulated failure it answers the configured error (fix f8b41cf) *)
       match c_failure c with
-      | Some _ => (c, err_obs ForcedFailure)
+      | Some f => (c, err_obs (failure_err f))
       | None => (c, ok_obs PNone [])
       end
   | OEmulateFailure cond =>
